@@ -28,7 +28,8 @@ class Case:
         return f"case {self.api} {self.mode} " + " ".join(hx(s) for s in self.segs)
 
     def replay(self):
-        return {"case": self.line(), "tag": self.tag, "bytes": self.data().hex(), "impl_line": (self.out or "")[:4000],
+        return {"case": self.line(), "tag": self.tag, "bytes": self.data().hex(),
+                "observed": {k: v for k, v in (self.d or {}).items() if k != "reply"}, "impl_line": (self.out or "")[:4000],
                 "impl": self.impl, "model": self.model, "model_cmd": (self.mline or "")[:4000]}
 
 
@@ -152,3 +153,42 @@ def pick_diverse(bad, n):
         else:
             seen.add(key); first.append(item)
     return (first + rest)[:n]
+
+
+def clone_case(x):
+    y = Case(x.api, x.mode, x.segs, absreq=x.absreq, tag=x.tag, nreq=x.nreq)
+    return y
+
+
+def confirm_soft(c, hbin, model, bad, judge, attempts=3):
+    """`bad`: list of (case, why[, extra]).  Hard evidence (exception out of service::run(), sanitizer abort, the
+    decoder model reaching an undefined operation) stands as it is.  Everything else (time-outs, probe mismatch,
+    counter mismatches) depends on scheduling on a shared, loaded machine: such a case is re-played in isolation up to
+    `attempts` times and kept only if it fails again at least once.  `judge(cases) -> list of (case, why)`."""
+    hard, soft = [], []
+    for item in bad:
+        why = item[1]
+        if len(item) > 2 or "exception left" in why or "sanitizer" in why or "undefined operation" in why:
+            hard.append(item)
+        else:
+            soft.append(item)
+    confirmed = []
+    dropped = 0
+    for item in soft[:40]:
+        x = item[0]
+        again = None
+        for _ in range(attempts):
+            y = clone_case(x)
+            hp, crashes = run_impl(c, hbin, [y])
+            if crashes:
+                again = (y, "sanitizer abort / crash of the real service (on re-play)", crashes[0][1]); break
+            done = run_model(c, model, [y], hp)
+            res = judge(done)
+            if res:
+                again = (res[0][0], res[0][1] + " (reproduced on re-play)"); break
+        if again:
+            confirmed.append(again)
+        else:
+            dropped += 1
+    c.extra_cov["soft_failures_not_reproduced"] = c.extra_cov.get("soft_failures_not_reproduced", 0) + dropped + max(0, len(soft) - 40)
+    return hard + confirmed
